@@ -163,7 +163,7 @@ func c08MutateLines(t *rapid.T, text string, isLog bool, muts *[]string) []byte 
 	lines := strings.SplitAfter(text, "\n")
 	n := rapid.IntRange(0, 6).Draw(t, "nmut")
 	for i := 0; i < n; i++ {
-		kind := rapid.IntRange(0, 21).Draw(t, "mut")
+		kind := rapid.IntRange(0, 23).Draw(t, "mut")
 		pick := func() int {
 			if len(lines) == 0 {
 				lines = append(lines, "")
@@ -281,6 +281,14 @@ func c08MutateLines(t *rapid.T, text string, isLog bool, muts *[]string) []byte 
 			for j := 0; j < 500; j++ {
 				lines = append(lines, fmt.Sprintf("  fan%d: %d\n", j%50, j))
 			}
+		case 22:
+			name = "degenerate-note"
+			k := pick()
+			lines[k] = lines[k] + []string{"  #\n", "  # \n", "\t#:\n", "  #:\n", "  # :\n", "  ##\n", "  # : :\n", "  #\t\n"}[rapid.IntRange(0, 7).Draw(t, "dn")]
+		case 23:
+			name = "degenerate-entry"
+			k := pick()
+			lines[k] = lines[k] + []string{"  :\n", "  : 1\n", "  - : 1\n", "  \"\": 1\n", "  -\n", "  - -\n", "  a:  \n", "  \t1\n", "- 1\n", "  a: 1 2\n"}[rapid.IntRange(0, 9).Draw(t, "de")]
 		}
 		*muts = append(*muts, name)
 	}
@@ -475,6 +483,6 @@ func init() { vRegister("C08", "c08.random", checkC08) }
 
 func TestVerifC08Random(t *testing.T) {
 	vRapid(t, "C08", "c08.random",
-		"valid books/logs with 0-6 grammar-aware mutations per file (22 kinds: truncated line, dropped value, NaN/Inf/1e400/hex/empty numbers, stray separators, invalid UTF-8, NUL, BOM, CR-only, 70 KiB line, empty file, comments only, entries before any heading, duplicate headings, cycles of length 1/2/6, chains 12/300/2000 deep, 1e308 values, 1000x repeated lines, 500-entry recipes) x every command and sub-command with drawn flag shapes (short/long/= forms, env vs flag, global vs sub-command periods from a dictionary of dates, keywords, natural-language phrases and garbage, --maxdepth 0..1e8, odd --date-format, invalid regexps, --no-database, missing paths, directories, missing arguments, unknown flags); in process (recovered panic = failure, 60 s watchdog) and 1/15 through the real binary (no signal, no runtime trace, same verdict, message on failure); non-trivial = at least one mutation and both files non-empty",
+		"valid books/logs with 0-6 grammar-aware mutations per file (24 kinds: degenerate notes and entries, truncated line, dropped value, NaN/Inf/1e400/hex/empty numbers, stray separators, invalid UTF-8, NUL, BOM, CR-only, 70 KiB line, empty file, comments only, entries before any heading, duplicate headings, cycles of length 1/2/6, chains 12/300/2000 deep, 1e308 values, 1000x repeated lines, 500-entry recipes) x every command and sub-command with drawn flag shapes (short/long/= forms, env vs flag, global vs sub-command periods from a dictionary of dates, keywords, natural-language phrases and garbage, --maxdepth 0..1e8, odd --date-format, invalid regexps, --no-database, missing paths, directories, missing arguments, unknown flags); in process (recovered panic = failure, 60 s watchdog) and 1/15 through the real binary (no signal, no runtime trace, same verdict, message on failure); non-trivial = at least one mutation and both files non-empty",
 		vBudget(12000, 320000), genC08, checkC08)
 }
